@@ -29,8 +29,9 @@
 (*   table       [present, sl, fl, ll]                                     *)
 (*   kern        [present, subs], subtable [horiz, min, cross, over,       *)
 (*               pairs], pair <<left, right, value>>                       *)
-(*   font file   [hasFull, full, hasBmp, bmp, widths, marks, gsub, gpos,   *)
-(*                kern, read]    read = the font went through Write/Read   *)
+(*   font file   [cm, widths, marks, gsub, gpos, kern, read]                *)
+(*               cm = cmap subtables (below), read = the font went through *)
+(*               Write/Read                                                *)
 (***************************************************************************)
 EXTENDS Integers, Sequences, FiniteSets, SequencesExt, FiniteSetsExt
 
@@ -42,13 +43,28 @@ NoKern  == [present |-> FALSE, subs |-> <<>>]
 
 ---------------------------------------------------------------------------
 (* cmap: each character through the best subtable; unmapped -> glyph 0.    *)
-(* "Best": a full-Unicode subtable (3,10)/(0,4) is preferred to a BMP one  *)
-(* (3,1)/(0,3).                                                            *)
+(* The cmap table of the file is F.cm, a sequence of subtables             *)
+(*   [p, e, ok, kind, m]   platform id, encoding id, whether the subtable  *)
+(*   can be decoded at all (a supported format - 0, 4, 6, 12 - and well    *)
+(*   formed), how it is stored, and the mapping it means (ok only).        *)
+(* "Best": the first DECODABLE subtable in the order full Unicode          *)
+(* (3,10), (0,4) before BMP (3,1), (0,3).  A subtable that is present but  *)
+(* unusable (format 2/8/10/13/14, or malformed) does not hide a usable one *)
+(* of lower rank.  (The cases give the subtables of one class one mapping, *)
+(* so the order inside a class is never put to the test.)                  *)
 CmapLookup(m, c) ==
   LET S == {i \in 1..Len(m) : m[i][1] = c}
   IN  IF S = {} THEN 0 ELSE m[Min(S)][2]
 
-BestCmap(F) == IF F.hasFull THEN F.full ELSE IF F.hasBmp THEN F.bmp ELSE <<>>
+CmapPriority == << <<3, 10>>, <<0, 4>>, <<3, 1>>, <<0, 3>> >>
+
+Usable(cm, k) == {i \in 1..Len(cm) : cm[i].p = CmapPriority[k][1] /\ cm[i].e = CmapPriority[k][2] /\ cm[i].ok}
+
+HasCmap(F) == \E k \in 1..Len(CmapPriority) : Usable(F.cm, k) # {}
+
+BestCmap(F) ==
+  LET K == {k \in 1..Len(CmapPriority) : Usable(F.cm, k) # {}}
+  IN  IF K = {} THEN <<>> ELSE F.cm[Min(Usable(F.cm, Min(K)))].m
 
 Item(g, t) == [g |-> g, t |-> t, a |-> 0, x |-> 0, y |-> 0]
 MapString(m, s) == [i \in 1..Len(s) |-> Item(CmapLookup(m, s[i]), <<s[i]>>)]
@@ -181,7 +197,12 @@ StdLig(m, lr) ==
         fl |-> << [tag |-> "liga", lk |-> <<0>>] >>,
         ll |-> << [ty |-> 4, rules |-> StdLigRules(m)] >>]
 
-\* fixed pitch: all non-zero advance widths are equal
+\* The reader gives standard ligatures to fonts that are not fixed pitch.  Documented rule
+\* (font.go): "IsFixedPitch returns true if all glyphs in the font have the same width" - all
+\* glyphs, .notdef and the last one included; the code leaves glyphs of width 0 out of the
+\* comparison.  Two different non-zero widths anywhere make a font proportional under either
+\* wording: then the ligatures are due.  Otherwise (all non-zero widths equal) the property is
+\* silent: fp = "lig" / "nolig", one answer per file.
 Proportional(widths) ==
   \E i, j \in 1..Len(widths) : widths[i] # 0 /\ widths[j] # 0 /\ widths[i] # widths[j]
 
@@ -221,9 +242,9 @@ KernTable(kern, rd) ==
    ll |-> << [ty |-> 2, rules |-> KernRules(kern.subs, rd)] >>]
 
 \* the tables in force after reading the file (or for a font that never was a file)
-EffGsub(F, lr) ==
+EffGsub(F, lr, fp) ==
   IF F.gsub.present THEN F.gsub
-  ELSE IF F.read /\ Proportional(F.widths) THEN StdLig(BestCmap(F), lr)
+  ELSE IF F.read /\ (Proportional(F.widths) \/ fp = "lig") THEN StdLig(BestCmap(F), lr)
   ELSE NoTable
 
 EffGpos(F, rd) ==
@@ -244,12 +265,12 @@ LayoutWith(F, G, P, gl, pl, s) ==
 Selected(T, kind, li, sw) ==
   IF T.present THEN FindLookupsSpec(T, T.sl[li], OnSet(kind, sw)) ELSE <<>>
 
-\* the readings the property text admits: <<kern reading, ligature reading>>
-Readings == {"min", "over"} \X {"req", "opt"}
+\* the readings the property text admits: <<kern reading, ligature reading, fixed-pitch reading>>
+Readings == {"min", "over"} \X {"req", "opt"} \X {"nolig", "lig"}
 
 \* the layout, given the choice of language systems (lg, lp) and the reading rd
 Layout(F, s, swg, swp, lg, lp, rd) ==
-  LET G == EffGsub(F, rd[2])
+  LET G == EffGsub(F, rd[2], rd[3])
       P == EffGpos(F, rd[1])
   IN  LayoutWith(F, G, P, Selected(G, "GSUB", lg, swg), Selected(P, "GPOS", lp, swp), s)
 
